@@ -143,6 +143,13 @@ func structCasesV(c *runner.Ctx, k int, kd kindT, firstPrefix string) {
 			{Name: "ByKey", Type: reflect.MapOf(reflect.TypeOf(""), st), Tag: `valid:"exist"`},
 			{Name: "Pair", Type: reflect.ArrayOf(2, st), Tag: `valid:"exist"`},
 		})
+		// an embedded object is an object of its own too (same group ids in the outer struct)
+		embOuter := reflect.StructOf([]reflect.StructField{
+			{Name: "P0", Type: kd.t, Tag: `valid:"either=1,botheq=2"`},
+			{Name: "Emb", Type: st, Anonymous: true, Tag: `valid:"exist"`},
+			{Name: "P1", Type: kd.t, Tag: `valid:"either=1,botheq=2"`},
+			{Name: "EmbP", Type: reflect.PtrTo(st), Tag: `valid:"required"`},
+		})
 		for va := 0; va < nv; va++ {
 			if !c.Take() {
 				continue
@@ -205,6 +212,12 @@ func structCasesV(c *runner.Ctx, k int, kd kindT, firstPrefix string) {
 				p.Field(5).Index(0).Set(obj)
 				p.Field(5).Index(1).Set(other)
 				run1("nested+parent", p.Addr().Interface(), true)
+				e := reflect.New(embOuter).Elem()
+				e.Field(0).Set(reflect.ValueOf(kd.vals[pv]))
+				e.Field(1).Set(obj)
+				e.Field(2).Set(reflect.ValueOf(kd.vals[(pv+1)%3]))
+				e.Field(3).Set(other.Addr())
+				run1("embedded+outer", e.Addr().Interface(), true)
 			}
 			c.Sample(func() interface{} { return desc })
 		}
@@ -420,7 +433,7 @@ func main() {
 		Property:  "C17",
 		Technique: "bounded-exhaustive enumeration of group assignments x value assignments x object placements x entry points vs per-object group model",
 		Rule: "objects with 2..3 (thorough 4) fields/keys, each in {none, either=1, either=2, botheq=1, botheq=2}, kinds string/int32 (and, up to 3 members, [2]int32, float64, bool, uint8, [2]string and a two-string struct whose distinct values print alike), values {zero,x,y}: all assignments; every type also with `required,` in front of the first member's group rule (2..3 members); placements: single struct, two slice elements, slice of pointers, " +
-			"two map entries by pointer, two and three map entries by value, nested child + slice of kids + map of kids by value + array of kids under a parent using the same group ids; Map, []map (two objects), Url (both parameter orders); expected group clauses (one per violated group, listing all members, " +
+			"two map entries by pointer, two and three map entries by value, nested child + slice of kids + map of kids by value + array of kids under a parent using the same group ids, and embedded (anonymous) by value / by pointer in an outer struct using the same group ids; Map, []map (two objects), Url (both parameter orders); expected group clauses (one per violated group, listing all members, " +
 			"single-member groups as rule-writing errors) compared as multisets with members as sets; non-trivial = >=2 groups or objects whose verdicts differ",
 		Assumptions: []string{"every group member is present in Map/Url inputs (possibly empty)", "group clause order and Map member order unspecified (Go maps)"},
 		Run:         run,
